@@ -726,7 +726,7 @@ def run(ctx: Ctx) -> int:
     for s_ in adds:
         fnode = enclosing_function(s_)
         at = guard_atoms(s_, stop=fnode)
-        ok = any(not pol and isinstance(t, ast.Compare) and isinstance(t.ops[0], ast.In) and ast.unparse(t.comparators[0]) == ast.unparse(s_.targets[0]) for t, pol in at)
+        ok = any(isinstance(t, ast.Compare) and ((not pol and isinstance(t.ops[0], ast.In)) or (pol and isinstance(t.ops[0], ast.NotIn))) and ast.unparse(t.comparators[0]) == ast.unparse(s_.targets[0]) for t, pol in at)
         ctx.oblige("C03.R12", ok, s_, "a read-mode flag is added only when the mode does not have it" if ok else "set_config_read_mode adds a flag that the mode already has: after enabling an enabled mode twice the mode is 'fuur' and EVERY later --cfg value (a good file, a missing file, a string) raises ValueError('Too many occurrences (2) for flag \"u\"') out of parse_args", fn=fnode, construct="read-mode flags unique")
 
     # ---------------- R10: switches read from the environment are compared case-insensitively -------------------------
